@@ -16,21 +16,27 @@
 (*   cut     "cancel": the client disconnects - the Flush that would commit frame  *)
 (*           cutAt fails, the request context is cancelled, every later writer     *)
 (*           call fails                                                          *)
+(*   deny    the coordinate is denied by the authorizer (dmode post | pre); the run  *)
+(*           is judged like a faulted one: stream-protocol clauses only            *)
 (* Every combination is an initial state; there are no transitions.              *)
 (***************************************************************************)
 EXTENDS Integers, Sequences, FiniteSets, TLC, Json
 CONSTANT K
-VARIABLES prio, park, parkAt, fault, faultAt, cut, cutAt
-svars == <<prio, park, parkAt, fault, faultAt, cut, cutAt>>
+VARIABLES prio, park, parkAt, fault, faultAt, cut, cutAt, deny, dmode
+svars == <<prio, park, parkAt, fault, faultAt, cut, cutAt, deny, dmode>>
 Perms == {p \in [1..K -> 1..K] : \A i, j \in 1..K : i # j => p[i] # p[j]}
+Denials == {"User.username", "User.realName", "Review.body", "Product.name", "Product.price", "Purchase.quantity",
+            "Question.subject", "User.reviews", "Review.author"}
 Faults == {"hard", "Transport", "ErrorsNoData", "DataNull", "Non2xxNonJSON"}
 SchedInit ==
   /\ prio \in Perms
-  /\ \/ park = "" /\ parkAt = 0 /\ fault = "" /\ faultAt = 0 /\ cut = "" /\ cutAt = 0
-     \/ park \in {"w", "f"} /\ parkAt \in 1..K /\ fault = "" /\ faultAt = 0 /\ cut = "" /\ cutAt = 0
-     \/ park = "" /\ parkAt = 0 /\ fault \in Faults /\ faultAt \in 1..K /\ cut = "" /\ cutAt = 0
+  /\ \/ park = "" /\ parkAt = 0 /\ fault = "" /\ faultAt = 0 /\ cut = "" /\ cutAt = 0 /\ deny = "" /\ dmode = ""
+     \/ park \in {"w", "f"} /\ parkAt \in 1..K /\ fault = "" /\ faultAt = 0 /\ cut = "" /\ cutAt = 0 /\ deny = "" /\ dmode = ""
+     \/ park = "" /\ parkAt = 0 /\ fault \in Faults /\ faultAt \in 1..K /\ cut = "" /\ cutAt = 0 /\ deny = "" /\ dmode = ""
      \* client disconnect (Disconnect of Defer.tla): the Flush of frame cutAt fails and the request context is cancelled
-     \/ park = "" /\ parkAt = 0 /\ fault = "" /\ faultAt = 0 /\ cut = "cancel" /\ cutAt \in 0..K
+     \/ park = "" /\ parkAt = 0 /\ fault = "" /\ faultAt = 0 /\ cut = "cancel" /\ cutAt \in 0..K /\ deny = "" /\ dmode = ""
+     \* authorization: one protected coordinate is denied, post-fetch (Authorizer) or pre-fetch (BatchAuthorizer)
+     \/ park = "" /\ parkAt = 0 /\ fault = "" /\ faultAt = 0 /\ cut = "" /\ cutAt = 0 /\ deny \in Denials /\ dmode \in {"post", "pre"}
 SchedSpec == SchedInit /\ [][UNCHANGED svars]_svars
-Emit == PrintT(ToJson([prio |-> prio, park |-> park, parkAt |-> parkAt, fault |-> fault, faultAt |-> faultAt, cut |-> cut, cutAt |-> cutAt]))
+Emit == PrintT(ToJson([prio |-> prio, park |-> park, parkAt |-> parkAt, fault |-> fault, faultAt |-> faultAt, cut |-> cut, cutAt |-> cutAt, deny |-> deny, dmode |-> dmode]))
 =============================================================================
